@@ -19,7 +19,7 @@
 From Coq Require Import List Bool Arith NArith Lia.
 From Coq.Strings Require Import Byte.
 From GI Require Import Gen.ProxyConsts Proxy.Proxy Proxy.ProxyStrings Proxy.ProxyFacts Proxy.ProxyConc.
-From GI Require Import Gen.ParConsts Par.ParWork Par.ParLib Par.ParCache Par.ParCacheProofs.
+From GI Require Import Gen.ParConsts Par.ParWork Par.ParLib Par.ParCache Par.ParCacheBase Par.ParCacheProofs.
 Import ListNotations.
 
 Definition fval_id (k : nat) : option nat := Some k.
@@ -205,7 +205,8 @@ Proof.
     rewrite nth_error_map, Hp in Ha. cbn in Ha. inversion Ha; subst tha.
     rewrite map_map, nth_error_map, Hp in Hc. cbn in Hc. inversion Hc; subst thc.
     rewrite nth_error_map, Hp in Hh. cbn in Hh. inversion Hh; subst ho.
-    unfold thr_rel. cbn [rest rets tpc]. split; [reflexivity|]. split; [reflexivity|].
+    unfold thr_rel. cbn [rest rets tpc stack]. split; [reflexivity|]. split; [reflexivity|].
+    split; [reflexivity|]. split; [reflexivity|].
     exists p. split; [reflexivity|]. split; [reflexivity|]. split.
     + intros x Hx. unfold Zl. apply in_flat_map. exists p. split; [eapply nth_error_In; exact Hp|exact Hx].
     + left. repeat split.
@@ -228,7 +229,7 @@ Proof.
   assert (t < length ps) as Hlt by (rewrite <- (i_len1 _ _ HI); eapply nth_error_lt; exact Ea).
   destruct (nth_error ps t) as [p|] eqn:Ep; [|apply nth_error_None in Ep; lia].
   destruct (nth_error_same_len _ (thrs sc) t tha ltac:(rewrite (i_len1 _ _ HI), (i_len2 _ _ HI); reflexivity) Ea) as [thc Ec].
-  pose proof (i_thr _ _ HI t p tha thc (Some h) Ep Ea Ec Eh) as (Hrest & Hrets & h0 & Hh0 & Hrun & Hincl & Hcase).
+  pose proof (i_thr _ _ HI t p tha thc (Some h) Ep Ea Ec Eh) as (Hrest & Hrets & Hstka & Hstkc & h0 & Hh0 & Hrun & Hincl & Hcase).
   inversion Hh0; subst h0. clear Hh0.
   destruct (is_idle_pc (tpc tha)) eqn:Eidle.
   - (* the call statement *)
@@ -250,14 +251,15 @@ Proof.
       * rewrite nth_error_set_nth_eq in Ha' by (rewrite (i_len1 _ _ HI); exact Hlt).
         inversion Ha'; subst tha'. rewrite Ep in Hq. inversion Hq; subst q.
         rewrite Ec in Hc'. inversion Hc'; subst thc'. rewrite Eh in Hh'. inversion Hh'; subst ho.
-        unfold thr_rel. cbn [rest rets tpc]. split; [reflexivity|]. split; [exact Hrets|].
+        unfold thr_rel. cbn [rest rets tpc stack]. split; [reflexivity|]. split; [exact Hrets|].
+        split; [reflexivity|]. split; [exact Hstkc|].
         exists h. split; [reflexivity|]. split; [exact Hrun|]. split; [exact Hincl|].
         right. split; [symmetry; exact Hpc|]. exists key, h'. repeat split; assumption.
       * rewrite nth_error_set_nth_neq in Ha' by exact Hne.
         apply (i_thr _ _ HI i q tha' thc' ho Hq Ha' Hc' Hh').
   - (* a step inside Do *)
     destruct Hcase as [(Hi & _)|(Hpc & key & h' & Hcur & Hnk & Hcn & Hr)]; [rewrite Hi in Eidle; discriminate|].
-    destruct (cstep_lockstep (acs st) sc t tha thc key (i_ents _ _ HI) (i_plain _ _ HI) Ea Ec Hpc Hcur)
+    destruct (cstep_lockstep (acs st) sc t tha thc key (i_ents _ _ HI) (i_plain _ _ HI) Ea Ec Hpc Hcur Hstka Hstkc)
       as [[Hn _]|(sa' & sc' & u & Hsa & Hsc & He' & Hp' & Hta & Htc & Hu)].
     { rewrite Hn in Hs. discriminate. }
     rewrite Hsa in Hs.
@@ -280,8 +282,8 @@ Proof.
         destruct (Nat.eq_dec t i) as [<-|Hne].
         -- rewrite Ea' in Ha2. inversion Ha2; subst tha'. rewrite Ec' in Hc2. inversion Hc2; subst thc'.
            rewrite Ep in Hq. inversion Hq; subst q. rewrite Eh in Hh2. inversion Hh2; subst ho.
-           unfold thr_rel. cbn [apply_upd goto rest rets tpc].
-           split; [exact Hrest|]. split; [exact Hrets|].
+           unfold thr_rel. cbn [apply_upd goto rest rets tpc stack].
+           split; [exact Hrest|]. split; [exact Hrets|]. split; [exact Hstka|]. split; [exact Hstkc|].
            exists h. split; [reflexivity|]. split; [exact Hrun|]. split; [exact Hincl|].
            right. split; [reflexivity|]. exists key, h'. repeat split; assumption.
         -- rewrite Hta, nth_error_set_nth_neq in Ha2 by exact Hne.
@@ -292,7 +294,7 @@ Proof.
       inversion Hs; subst st'. clear Hs.
       (* C10: the returned value is the value of the one call of f for this key *)
       assert (v = Some key) as Hv.
-      { destruct (do_returns_f_value fval_id (map calls ps) sc' t (apply_upd thc (TRet (CDo key) v)) key v Hreach' Ec')
+      { destruct (do_returns_f_value fval_id deps0 (map calls ps) sc' t (apply_upd thc (TRet (CDo key) v)) key v Hreach' Ec')
           as [Hv _]; [cbn [apply_upd ret rets]; left; reflexivity|exact Hv]. }
       subst v. rewrite (resume_canon h key Hnk Hincl), Hcn.
       destruct (next_canon h key Hnk) as (h2 & Hcn2 & Hcalls & Hrun' & Hinc').
@@ -306,8 +308,8 @@ Proof.
         -- rewrite Ea' in Ha2. inversion Ha2; subst tha'. rewrite Ec' in Hc2. inversion Hc2; subst thc'.
            rewrite Ep in Hq. inversion Hq; subst q.
            rewrite nth_error_set_nth_eq in Hh2 by (rewrite (i_len3 _ _ HI); exact Hlt). inversion Hh2; subst ho.
-           unfold thr_rel. cbn [apply_upd ret rest rets tpc]. rewrite Hrest. cbn [start fst snd].
-           split; [reflexivity|]. split; [rewrite Hrets; reflexivity|].
+           unfold thr_rel. cbn [apply_upd ret rest rets tpc stack]. rewrite Hrest. cbn [start fst snd].
+           split; [reflexivity|]. split; [rewrite Hrets; reflexivity|]. split; [exact Hstka|]. split; [exact Hstkc|].
            exists h'. split; [reflexivity|]. split; [rewrite Hrun'; exact Hrun|]. split.
            ++ intros x Hx. apply Hincl, Hinc', Hx.
            ++ left. rewrite Hr. repeat split.
@@ -344,7 +346,7 @@ Proof.
     [|apply nth_error_None in Ec; rewrite (i_len2 _ _ HI) in Ec; lia].
   destruct (nth_error (hs st) i) as [ho|] eqn:Eh;
     [|apply nth_error_None in Eh; rewrite (i_len3 _ _ HI) in Eh; lia].
-  destruct (i_thr _ _ HI i p tha thc ho Hp Ea Ec Eh) as (_ & _ & h & Hho & Hr & _ & _).
+  destruct (i_thr _ _ HI i p tha thc ho Hp Ea Ec Eh) as (_ & _ & _ & _ & h & Hho & Hr & _ & _).
   subst ho. exists h. split; [reflexivity|]. split; [exact Hr|].
   intros r Hret. subst h. cbn in Hr. exact Hr.
 Qed.
@@ -372,7 +374,9 @@ Theorem event_level_progress : forall sch st,
 Proof.
   intros sch st Hrun.
   destruct (arun_Inv sch (ainit ps) _ st init_Inv Hrun) as (sc & HI).
-  destruct (cache_no_deadlock fval_id (map calls ps) sc (i_reach _ _ HI)) as [Hidle|(t & sc' & Hstep)].
+  assert (forall k dd : nat, In dd (deps0 k) -> (fun _ : nat => 0) dd < (fun _ : nat => 0) k) as Hacyc
+    by (intros k dd []).
+  destruct (cache_no_deadlock fval_id deps0 (map calls ps) (fun _ => 0) Hacyc sc (i_reach _ _ HI)) as [Hidle|(t & sc' & Hstep)].
   - left. apply Forall_forall. intros ho Hin.
     apply In_nth_error in Hin. destruct Hin as [i Hi].
     assert (i < length ps) as Hlt by (rewrite <- (i_len3 _ _ HI); eapply nth_error_lt; exact Hi).
@@ -381,7 +385,7 @@ Proof.
       [|apply nth_error_None in Ea; rewrite (i_len1 _ _ HI) in Ea; lia].
     destruct (nth_error (thrs sc) i) as [thc|] eqn:Ec;
       [|apply nth_error_None in Ec; rewrite (i_len2 _ _ HI) in Ec; lia].
-    destruct (i_thr _ _ HI i p tha thc ho Ep Ea Ec Hi) as (_ & _ & h & Hho & _ & _ & Hcase).
+    destruct (i_thr _ _ HI i p tha thc ho Ep Ea Ec Hi) as (_ & _ & _ & _ & h & Hho & _ & _ & Hcase).
     assert (tpc thc = Idle) as Hci.
     { unfold all_idle in Hidle. rewrite forallb_forall in Hidle.
       specialize (Hidle thc (nth_error_In _ _ Ec)). unfold is_idle in Hidle.
@@ -400,7 +404,7 @@ Proof.
       [|apply nth_error_None in Ea; rewrite (i_len1 _ _ HI) in Ea; lia].
     destruct (nth_error (hs st) t) as [ho|] eqn:Eh;
       [|apply nth_error_None in Eh; rewrite (i_len3 _ _ HI) in Eh; lia].
-    destruct (i_thr _ _ HI t p tha thc ho Ep Ea Ec Eh) as (Hrest & _ & h & Hho & _ & _ & Hcase).
+    destruct (i_thr _ _ HI t p tha thc ho Ep Ea Ec Eh) as (Hrest & _ & Hstka & Hstkc & h & Hho & _ & _ & Hcase).
     subst ho. unfold astep. rewrite Ea, Eh.
     destruct Hcase as [(Hai & Hpc & Hr)|(Hpc & key & h' & Hcur & Hnk & Hcn & Hr)].
     + rewrite Hai. cbn [is_idle_pc].
@@ -409,7 +413,7 @@ Proof.
       cbn in Hpc. rewrite Hpc in Hstep. discriminate.
     + assert (is_idle_pc (tpc tha) = false) as Hni by (destruct (tpc tha); cbn in Hcur; try discriminate; reflexivity).
       rewrite Hni.
-      destruct (cstep_lockstep (acs st) sc t tha thc key (i_ents _ _ HI) (i_plain _ _ HI) Ea Ec Hpc Hcur)
+      destruct (cstep_lockstep (acs st) sc t tha thc key (i_ents _ _ HI) (i_plain _ _ HI) Ea Ec Hpc Hcur Hstka Hstkc)
         as [[_ Hn]|(sa' & sc2 & u & Hsa & Hsc & _ & _ & Hta & _)].
       * unfold cstep in Hn. rewrite Ec in Hn. rewrite Hn in Hstep. discriminate.
       * rewrite Hsa. rewrite Hta.
